@@ -25,7 +25,8 @@ KNOWN_FILE = os.path.join(VERIF, "known_findings.jsonl")
 class Candidate:
     """A solver counterexample to one expectation."""
 
-    def __init__(self, family, sig, desc, scenario, native_spec, decisions, model_values):
+    def __init__(self, family, sig, desc, scenario, native_spec, decisions, model_values, pred_kinds=None):
+        self.pred_kinds = pred_kinds
         self.family = family
         self.sig = sig
         self.desc = desc
@@ -90,7 +91,8 @@ class PathCtx:
             spec = native(cz) if callable(native) else native
         except Unreplayable as e:
             spec = {"kind": "unreplayable", "why": str(e)}
-        c = Candidate(self.task["family"], sig, desc, scenario, spec, [d[2] + "=" + str(d[0]) for d in w.decisions][-40:], mv)
+        kinds = [st.outcome.kind for st in self.scn.log[:upto]] if self.scn is not None else None
+        c = Candidate(self.task["family"], sig, desc, scenario, spec, [d[2] + "=" + str(d[0]) for d in w.decisions][-40:], mv, kinds)
         self.candidates.append(c)
         # continue the path on the side where the expectation holds, if there is one
         if cond is False or fatal:
@@ -364,7 +366,26 @@ def replay_candidate(c, task):
         return
     holds = native_holds(c.native_spec, obs, tree, c.scenario)
     c.native = {"observations": obs[-6:], "expectation_holds": holds}
-    if holds is False:
+    # the native run must have followed the model's trajectory (same outcome class at every step);
+    # otherwise a failed expectation says nothing about the model's counterexample
+    diverged = None
+    if c.pred_kinds:
+        for i, k in enumerate(c.pred_kinds):
+            if i >= len(obs):
+                diverged = (i, k, "missing")
+                break
+            ok_ = obs[i].get("outcome")
+            if ok_ == "unsupported":
+                continue
+            if ok_ != k and not (k in ("panic", "abort", "hang") and ok_ in ("panic", "abort", "hang")):
+                diverged = (i, k, ok_)
+                break
+    c.native["diverged_at"] = diverged
+    if diverged is not None and holds is False:
+        # it may still be the very step the expectation is about (e.g. model says panic, native too) -- that is equal kinds;
+        # a different kind means model and implementation disagree: a model mismatch, never a violation
+        c.status = "mismatch"
+    elif holds is False:
         c.status = "confirmed"
     elif holds is True:
         c.status = "mismatch"
